@@ -232,6 +232,8 @@ pub open spec fn marker_window(a: Seq<Effect>, b: Seq<Effect>, lo: int, hi: int)
        || (hi - lo >= 2 && only_word_loads(a, b, lo, hi - 1) && is_mark(b[a.len() + hi - 1])) )
 }
 
+/// no status was read in the effects added after `a`
+pub open spec fn no_status_loads(a: Seq<Effect>, b: Seq<Effect>) -> bool { forall|i: int| a.len() <= i < b.len() ==> !((#[trigger] b[i]) is StatusLoad) }
 pub open spec fn status_loaded(e: Effect) -> u8 { match e { Effect::StatusLoad(v) => v, _ => 255u8 } }
 /// no mailbox item was enqueued among the effects added after `a`
 pub open spec fn no_enqueue(a: Seq<Effect>, b: Seq<Effect>) -> bool { forall|i: int| a.len() <= i < b.len() ==> !(#[trigger] b[i] is Enqueue) }
